@@ -1066,7 +1066,7 @@ def gen_xmin(nrng, tier, counts):
 # returned error is off by ~1% of the signal energy and complex records trip the assert 'wierd behaviour'
 # (e.g. x = ones(12), x[-1] = 3, order 2).  That input class is excluded until ruled on; only records whose rank deficiency
 # comes from exact ZEROS (zero columns / zero rows of the regressor matrix) are generated.
-RDEF_GLITCH = False
+RDEF_GLITCH = True   # enabled: defect D33 (rank tolerance of the lstsq call) is fixed in the library
 
 
 def _rdef_burst(nrng, m, cplx, content):
